@@ -47,6 +47,25 @@ STRENGTHENED = {
     "C15-6": "C15 generator: parsed lists (parse_term / parse_linked_list) with integers beyond 2^53, with an oracle on the elements",
     "C17-6": "C17 generator: tail variables whose ids collide modulo 64 / 256 / 65536",
     "C19-6": "C19 goal generator: non-ASCII letters in functors and arguments of goals and rules",
+    # round 6 (beyond small inputs, the other 13 properties)
+    "C03-5": "C03 generator: recursion through not(..) 60-75 levels deep (Peano numbers, lists)",
+    "C03-6": "C03 generator: not over comparisons of integers that differ by one above 2^53",
+    "C04-5": "C04 generator: format strings with non-ASCII text BEFORE a %s marker",
+    "C04-6": "C04 generator: floats with 16-17 significant digits and above 2^24 printed by print, print_list and inside terms",
+    "C05-5": "C05 generator: predicates of 300 clauses (the wanted clause beyond the 256th)",
+    "C05-6": "C05 generator: a conjunction that rejects 289 candidates before its first answer, asked with next_solution right after another query was finished by solve",
+    "C08-6": "C08 generator: clauses whose variable names agree in their last 8 (first 16 / 24) characters, through the solver",
+    "C09-5": "C09 generator: through the solver - predicates of 3-20 clauses called with $_ in each argument position, oracle: one answer per clause",
+    "C09-6": "C09 generator: complex terms of arity 7-12 with $_ at every position",
+    "C11-6": "C11 generator: a clause of 14-20 distinct variables fetched before clauses that reuse its names",
+    "C13-6": "C13 generator: arithmetic functions with 12 arguments, integers above 2^53 (function-vs-value relation then decides)",
+    "C16-6": "C16 generator: append with up to 16 inputs",
+    "C18-5": "C18 generator: over-long (> 1000 characters) non-ASCII terms at every byte alignment of the first 64 bytes",
+    "C18-6": "C18 generator: built-in functions nested 5-45 deep with a syntax error at the innermost level (a parser that retries each level does not return)",
+    "C22-5": "C22 generator: a query with a cut re-asked 25 000 times after exhaustion, then fresh queries",
+    "C22-6": "C22 generator: a query that fetches a fact of 16-20 distinct variables, then fresh queries over clauses reusing those names",
+    "C23-5": "C23 generator: timer histories with 255 ... 65536 query starts between the start of a timer and its time-out; a panic of a protocol operation is judged",
+    "C23-6": "C23 generator, THOROUGH tier only (the model needs two minutes): a predicate of 66 000 clauses",
 }
 
 def parse_log(path):
